@@ -49,6 +49,8 @@ pub struct C14 {
     /// into_parts() + with_buffer() round trip before this write / read call (at a frame boundary)
     pub w_rewrap_at: Option<u32>,
     pub r_rewrap_at: Option<u32>,
+    /// call the reader()/reader_mut()/writer()/writer_mut() accessors between calls without doing I/O through them
+    pub touch: bool,
 }
 
 const HOSTILE_MIN: u32 = 600 * 1024;
@@ -169,6 +171,10 @@ fn writer_phase(s: &C14, obs: &Rc<RefCell<Obs>>) -> Result<Written, Violation> {
             }
         }
         let max_len = max_len_for(idx);
+        if s.touch {
+            let _ = writer.writer_mut();
+            let _ = writer.writer();
+        }
         let before = core.borrow().data.len();
         let at = format!("write #{idx}");
         obs.borrow_mut().event(ev::ISSUE, idx as u64);
@@ -430,6 +436,10 @@ impl<'a> FamVisitor for RVisit<'a> {
                 }
             }
             let max_len = max_len_for(i);
+            if s.touch {
+                let _ = reader.reader_mut();
+                let _ = reader.reader();
+            }
             // the buffer may have grown under an earlier, larger max_len: bound by the largest limit seen so far
             let seen_max = if knob_at > 0 && s.r_max_len_mode != 0 { (512 * 1024usize).max(knob_len) } else { max_len };
             seen_max_final = seen_max;
@@ -579,6 +589,7 @@ impl Scenario for C14 {
             .set("r_knob_at", self.r_knob_at)
             .set("w_rewrap_at", self.w_rewrap_at)
             .set("r_rewrap_at", self.r_rewrap_at)
+            .set("touch", self.touch)
     }
     fn from_json(j: &Json) -> Result<Self, String> {
         let u = |k: &str| j.get(k).and_then(|c| c.as_u64()).unwrap_or(0);
@@ -601,6 +612,7 @@ impl Scenario for C14 {
             r_knob_at: u("r_knob_at") as u32,
             w_rewrap_at: j.get("w_rewrap_at").and_then(|c| c.as_u64()).map(|c| c as u32),
             r_rewrap_at: j.get("r_rewrap_at").and_then(|c| c.as_u64()).map(|c| c as u32),
+            touch: b("touch"),
         })
     }
     fn run(&self, obs: &mut Obs) -> Result<(), Violation> {
@@ -673,6 +685,7 @@ impl Scenario for C14 {
         reset!(r_knob_at, 0);
         reset!(w_rewrap_at, None);
         reset!(r_rewrap_at, None);
+        reset!(touch, false);
         if self.family != Ty::Str && self.family != Ty::U64 {
             for t in [Ty::U64, Ty::Str] {
                 let items: Vec<WKind> = self
@@ -711,6 +724,7 @@ fn base(family: Ty, items: Vec<WKind>) -> C14 {
         r_knob_at: 0,
         w_rewrap_at: None,
         r_rewrap_at: None,
+        touch: false,
     }
 }
 
@@ -898,7 +912,7 @@ impl Property for P14 {
                 items.push(WKind::Fail(if r.chance(1, 2) { 0 } else { r.range(1, 200) as u32 }));
             } else if en_poison && r.chance(1, 4) {
                 match r.below(4) {
-                    0 => items.push(WKind::Val(ValSpec { ty: *r.pick(IO_TYS), size, seed: r.next_u64() })),
+                    0 => items.push(WKind::Val(ValSpec { ty: if r.chance(1, 6) { Ty::Empty } else { *r.pick(IO_TYS) }, size, seed: r.next_u64() })),
                     1 => items.push(WKind::Raw { declared: 0, body: vec![] }),
                     2 => {
                         // complete frame, truncated or extended CBOR inside
@@ -982,6 +996,7 @@ impl Property for P14 {
             r_knob_at: if r.chance(1, 4) { r.below(nitems as u64) as u32 } else { 0 },
             w_rewrap_at: if r.chance(1, 6) { Some(r.below(nitems as u64) as u32) } else { None },
             r_rewrap_at: if r.chance(1, 6) { Some(r.below(nitems as u64 + 1) as u32) } else { None },
+            touch: r.chance(1, 3),
         }
     }
 
